@@ -48,6 +48,16 @@ CHECKS = {
         "note": "Trusted: TLC; Go's comparison operators and strconv/conversions as the descriptor and value oracles.",
         "technique": "TLA+ tables with laws as TLC invariants; exhaustive pair evaluation of the real runtime against the tables",
     },
+    "C12": {
+        "text": ("Dedup.tla transcribes RemoveDuplicates on abstract bytecode; TLC checks, for every small constant pool and reference layout, that "
+                 "every reference of every loadable function still denotes an equal constant, no mergeable duplicates remain, nothing is lost, and "
+                 "idempotence. For real programs the bytecode before/after the real RemoveDuplicates is validated against the transcription "
+                 "(DedupPairs.tla), the de-duplicated and the gob-decoded bytecode are checked by BytecodeWF.tla, and the pipelines raw / "
+                 "+RemoveDuplicates / +Encode+Decode are run in the real VM and must behave identically (results, error text, positions)."),
+        "design_ref": "DESIGN.md 5.6, 8/C12",
+        "note": "Trusted: TLC; the abstraction of constants (value keys, pointer identity of functions); gob fidelity itself is not modelled.",
+        "technique": "TLA+ transcription model-checked exhaustively (small scope) + artefact validation of real before/after pairs + three-pipeline runs",
+    },
     "C13": {
         "text": ("Modules.tla models the import-graph compilation (cycle check on the parent chain, root cache, store at every level); TLC "
                  "checks termination, 'fails iff a cycle is reachable', compiled-once and simple-path over every graph of the bounded "
